@@ -176,3 +176,32 @@ Proof.
   intros HPa HL HC NC. split; [rewrite <- image_of_dict; eapply layout_accepts; eauto|].
   intros pre name e post s0 a k. exact (data_final_value fs _ placed env HL NC pre name e post s0 a k).
 Qed.
+
+(* ------------------------------------------------------------------ the same for the wider class (LayoutStep.stmt_okx):
+   deferred instruction statements of every template, .dfile; fs = the files the context reads, fsr = the reference's *)
+Theorem no_placeholderx fs fsr path text els placed env :
+  parse_source text = Parsed (map Text.ParseModel.IOk els) None ->
+  layout_spec fsr (map e_val els) = Some (placed, env) -> C05_classx fs fsr path env els -> no_collision fsr (map e_val els) ->
+  pipeline fs path text = Done Success [] (runs (image_dict placed)) /\
+  (forall a bs ids, In (a, bs, ids) placed -> forall x, a <= x -> x < a + mlen bs ->
+     d_get (image_dict placed) x = nth_error bs (N.to_nat (x - a))) /\
+  (forall x, d_get (image_dict placed) x <> None -> exists a bs ids, In (a, bs, ids) placed /\ a <= x /\ x < a + mlen bs).
+Proof.
+  intros HPa HL HC NC. split; [rewrite <- image_of_dict; eapply layout_acceptsx; eauto|].
+  exact (dict_statements fsr _ placed env HL NC).
+Qed.
+
+Theorem order_independentx fs fsr path text els placed env :
+  parse_source text = Parsed (map Text.ParseModel.IOk els) None ->
+  layout_spec fsr (map e_val els) = Some (placed, env) -> C05_classx fs fsr path env els -> no_collision fsr (map e_val els) ->
+  pipeline fs path text = Done Success [] (runs (image_dict placed)) /\
+  forall pre name e post s0 a k,
+    map e_val els = pre ++ EDirective name [e] :: post -> dir_of name = Some (DData k) ->
+    pass1 fsr (mkP1 None [] []) pre = Some s0 -> p_cur s0 = Some a ->
+    exists v, den64 (rho env) e = Some v /\ (0 <= v <= dk_max k)%Z /\
+      forall x, a <= x -> x < a + dk_size k ->
+        d_get (image_dict placed) x = nth_error (le_n (dk_size k) (Z.to_N v)) (N.to_nat (x - a)).
+Proof.
+  intros HPa HL HC NC. split; [rewrite <- image_of_dict; eapply layout_acceptsx; eauto|].
+  intros pre name e post s0 a k. exact (data_final_value fsr _ placed env HL NC pre name e post s0 a k).
+Qed.
